@@ -17,18 +17,35 @@ RULE = (
     "case = (def signature, call shape); signatures enumerated exhaustively up to n parameters over "
     "all kinds/default patterns; call shapes enumerated exhaustively (quick: n<=3; thorough: n<=4) over "
     "0-4 positionals x keyword subsets x *(..) literal x **{..} literal, plus valid-call mutations for larger n; "
-    "star-arguments of unknown length are judged against every expansion up to length 4. Non-trivial = distinct "
-    "(signature kinds+defaults string, call-shape class npos/kw-classes/star/dstar); evidence lists per-signature "
-    "both-verdict counts."
+    "star-arguments of unknown length are judged against every expansion up to length 4. ORDERED calls: for every "
+    "signature (quick: n<=3, thorough: n<=4; n up to 4 / 5: a sample of 24 / 60 orders) every argument ORDER Python's grammar allows "
+    "over {positional, *iterable, keyword, **mapping} up to 4 items (159 orders; positional not after keyword/**, "
+    "* not after **) is instantiated: *-items as tuple/list literals of 0-2 elements or list[int]/tuple[int, ...] "
+    "variables, keyword names from the parameter names + 1 foreign name, **-items as dict literals, total TypedDict "
+    "variables, non-total TypedDict variables or a dict[str, int] variable with 0-2 keys from the same pool; per "
+    "(signature, order) several random instantiations are executed under CPython first and one binding call plus "
+    "one call per sampled CPython error class is kept (so duplicates between any two keyword sources in either "
+    "order, positional/keyword clashes, etc. are reached as the ONLY error of a call). Calls whose items are all "
+    "statically known are judged exactly, the others against every expansion. Non-trivial = distinct "
+    "(signature kinds+defaults string, call-shape class npos/kw-classes/star/dstar | ordered item forms); evidence "
+    "lists per-signature both-verdict counts."
 )
 ASSUMPTIONS = [
     "CPython 3.12 in /venv is the oracle for binding; function bodies are `pass` so every TypeError is a bind error",
     "diagnosed = an incompatible_call or incompatible_argument diagnostic on the call's line",
     "unknown-length star arguments: expansions enumerated up to length 4 / key subsets of parameter names + 1 foreign key",
+    "a **-argument typed as a total TypedDict has a statically known key set (judged exactly, executed with a dict "
+    "holding exactly those keys); a non-total TypedDict is judged like an unknown star-argument over every subset of "
+    "its keys: accepted => some expansion binds; rejected => for no choice of the other star-arguments (all "
+    "non-empty) does every key subset bind",
 ]
 FLOORS = {
-    "quick": {"distinct_nontrivial": 20000, "calls_compared": 100000, "star_cases": 2000, "both_bind_and_raise": 1},
-    "thorough": {"distinct_nontrivial": 100000, "calls_compared": 1000000, "star_cases": 10000},
+    "quick": {"distinct_nontrivial": 20000, "calls_compared": 100000, "star_cases": 2000, "both_bind_and_raise": 1,
+              "ordered_exact_cases": 19000, "ordered_exact_binds": 4500, "ordered_exact_raise": 12000,
+              "ordered_kw_after_dstar": 3500, "ordered_star_not_last_positional": 7000, "ordered_star_cases": 4500},
+    "thorough": {"distinct_nontrivial": 100000, "calls_compared": 1000000, "star_cases": 10000,
+                 "ordered_exact_cases": 19000, "ordered_exact_binds": 4500, "ordered_exact_raise": 12000,
+                 "ordered_kw_after_dstar": 3500, "ordered_star_not_last_positional": 7000, "ordered_star_cases": 4500},
 }
 EXHAUSTIVE = {"quick": False, "thorough": False}
 BIND_CODES = {"incompatible_call", "incompatible_argument"}
@@ -278,6 +295,389 @@ def check_star_batch(ctx, batch) -> None:
         harness.forget_module(res.module)
 
 
+# ---------------------------------------------------------------------------
+# ORDERED calls: every order of positional / *iterable / keyword / **mapping items the grammar allows
+#
+# item forms (JSON-able lists):
+#   ["p"]                       explicit positional
+#   ["s", "tuple"|"list", n]    *(..) / *[..] literal with n elements
+#   ["u", "xs"|"t"]             *xs (list[int]) / *t (tuple[int, ...]) of unknown length
+#   ["k", name]                 explicit keyword
+#   ["d", "lit"|"td"|"nt", [keys]]   **{..} literal / **total-TypedDict variable / **non-total-TypedDict variable
+#   ["dk"]                      **kw (dict[str, int]) with unknown keys
+
+
+def ordered_patterns(maxlen: int) -> list:
+    """Every sequence over P(ositional) S(tar) K(eyword) D(ouble-star) that Python's grammar accepts."""
+    out = []
+    rank = {"P": 0, "S": 0, "K": 1, "D": 2}
+
+    def rec(seq, phase):
+        if seq:
+            out.append("".join(seq))
+        if len(seq) == maxlen:
+            return
+        for ch in "PSKD":
+            if ch == "P" and phase > 0:  # positional argument follows keyword argument / ** unpacking
+                continue
+            if ch == "S" and phase > 1:  # iterable unpacking follows ** unpacking
+                continue
+            rec(seq + [ch], max(phase, rank[ch]))
+
+    rec([], 0)
+    return out
+
+
+def instantiate(pattern: str, names, rng, exact: bool):
+    pool = [*names, "zz"]
+    used_kw = set()
+    unk = set()
+    items = []
+    for ch in pattern:
+        if ch == "P":
+            items.append(["p"])
+        elif ch == "S":
+            r = rng.random()
+            if not exact and r < 0.4 and "xs" not in unk:
+                unk.add("xs")
+                items.append(["u", "xs"])
+            elif not exact and r < 0.7 and "t" not in unk:
+                unk.add("t")
+                items.append(["u", "t"])
+            else:
+                items.append(["s", rng.choice(["tuple", "tuple", "list"]), rng.choice([0, 1, 1, 2])])
+        elif ch == "K":
+            cands = [k for k in pool if k not in used_kw]
+            if not cands:
+                return None
+            k = rng.choice(cands)
+            used_kw.add(k)
+            items.append(["k", k])
+        else:
+            r = rng.random()
+            keys = sorted(rng.sample(pool, min(len(pool), rng.choice([0, 1, 1, 1, 2]))))
+            if not exact and r < 0.4 and "kw" not in unk:
+                unk.add("kw")
+                items.append(["dk"])
+            elif not exact and r < 0.65 and keys:
+                items.append(["d", "nt", keys])
+            elif r < 0.3 or (not exact and r > 0.9):
+                items.append(["d", "td", keys])
+            else:
+                items.append(["d", "lit", keys])
+    return items
+
+
+def is_exact(items) -> bool:
+    return not any(it[0] in ("u", "dk") or (it[0] == "d" and it[1] == "nt") for it in items)
+
+
+def td_var(it) -> str:
+    return f"{it[1]}_{'_'.join(it[2])}"
+
+
+def render_ordered(fname: str, items) -> str:
+    args = []
+    np = ns_ = nk = nd = 0
+    for it in items:
+        if it[0] == "p":
+            np += 1
+            args.append(str(np))
+        elif it[0] == "s":
+            inner = ", ".join(str(10 + ns_ + i) for i in range(it[2]))
+            ns_ += it[2]
+            if it[1] == "tuple":
+                args.append(f"*({inner}{',' if it[2] == 1 else ''})")
+            else:
+                args.append(f"*[{inner}]")
+        elif it[0] == "u":
+            args.append("*" + it[1])
+        elif it[0] == "k":
+            args.append(f"{it[1]}={20 + nk}")
+            nk += 1
+        elif it[0] == "dk":
+            args.append("**kw")
+        elif it[1] == "lit":
+            inner = ", ".join(f"{k!r}: {30 + nd + i}" for i, k in enumerate(it[2]))
+            nd += len(it[2])
+            args.append("**{" + inner + "}")
+        else:
+            args.append("**" + td_var(it))
+    return f"{fname}({', '.join(args)})"
+
+
+def ordered_env_static(items) -> dict:
+    """Runtime values of the total-TypedDict variables (exactly their keys)."""
+    return {td_var(it): dict.fromkeys(it[2], 7) for it in items if it[0] == "d" and it[1] == "td"}
+
+
+def ordered_expansions(sig: Sig, items):
+    """(outer, inner) where outer ranges over the unknown-length star variables and inner over the key subsets of
+    the non-total TypedDict variables."""
+    names = sig.names()
+    keypool = [*names, "zz"]
+    maxlen = max(4, sum(1 for p in sig.params if p.kind in (PO, PK)) + 1)
+    used = {it[1] for it in items if it[0] == "u"}
+    outer_vars = []
+    outer_opts = []
+    for v, base in (("xs", 100), ("t", 200)):
+        if v in used:
+            outer_vars.append(v)
+            vals = [tuple(range(base, base + n)) for n in range(0, maxlen + 1)]
+            outer_opts.append([list(x) for x in vals] if v == "xs" else vals)
+    if any(it[0] == "dk" for it in items):
+        outer_vars.append("kw")
+        outer_opts.append([dict.fromkeys(c, 7) for r in range(0, len(keypool) + 1) for c in itertools.combinations(keypool, r)])
+    inner_vars = []
+    inner_opts = []
+    for it in items:
+        if it[0] == "d" and it[1] == "nt" and td_var(it) not in inner_vars:
+            inner_vars.append(td_var(it))
+            inner_opts.append([dict.fromkeys(c, 7) for r in range(0, len(it[2]) + 1) for c in itertools.combinations(it[2], r)])
+    return outer_vars, outer_opts, inner_vars, inner_opts
+
+
+def ordered_features(sig: Sig, items) -> str:
+    f = []
+    kinds = [it[0] for it in items]
+    forms = sorted({("star-lit" if it[0] == "s" else "star-unk") for it in items if it[0] in ("s", "u")}
+                   | {("dstar-unk" if it[0] == "dk" else "dstar-" + it[1]) for it in items if it[0] in ("d", "dk")})
+    f += forms
+    seen_star = seen_kw = seen_d = False
+    flags = set()
+    for k in kinds:
+        if k == "p" and seen_star:
+            flags.add("pos-after-star")
+        if k in ("s", "u"):
+            if seen_star:
+                flags.add("two-stars")
+            if seen_kw:
+                flags.add("star-after-kw")
+            seen_star = True
+        if k == "k":
+            if seen_d:
+                flags.add("kw-after-dstar")
+            seen_kw = True
+        if k in ("d", "dk"):
+            if seen_d:
+                flags.add("two-dstars")
+            seen_d = True
+    f += sorted(flags)
+    # duplicates between keyword sources, with the order in which they appear
+    seen = {}
+    dups = set()
+    for it in items:
+        if it[0] == "k":
+            src, keys = "kw", [it[1]]
+        elif it[0] == "d":
+            src, keys = "dstar", it[2]
+        else:
+            continue
+        for k in keys:
+            if k in seen:
+                dups.add(f"dup:{seen[k]}-then-{src}")
+            else:
+                seen[k] = src
+    f += sorted(dups)
+    return ",".join(f)
+
+
+def definite_after_unknown_star_exceed(sig: Sig, items) -> bool:
+    if any(p.kind == VA for p in sig.params):
+        return False
+    capacity = sum(1 for p in sig.params if p.kind in (PO, PK))
+    definite = sum(1 if it[0] == "p" else it[2] for it in items if it[0] in ("p", "s"))
+    seen_unknown = False
+    after = 0
+    for it in items:
+        if it[0] == "u":
+            seen_unknown = True
+        elif seen_unknown and it[0] in ("p", "s"):
+            after += 1 if it[0] == "p" else it[2]
+    return definite > capacity and after > 0
+
+
+def ordered_shape(items) -> str:
+    out = []
+    for it in items:
+        if it[0] == "p":
+            out.append("P")
+        elif it[0] == "s":
+            out.append(f"S{it[1][0]}{it[2]}")
+        elif it[0] == "u":
+            out.append("U" + it[1])
+        elif it[0] == "k":
+            out.append("K")
+        elif it[0] == "dk":
+            out.append("Dkw")
+        else:
+            out.append(f"D{it[1]}{len(it[2])}")
+    return " ".join(out)
+
+
+def ordered_cases(sig: Sig, rng, patterns, tries: int, p_star: float):
+    """For every order: instantiate `tries` fully-known calls, execute them under CPython, keep one that binds and one
+    per sampled error class; plus (with probability p_star) one call with star-arguments of unknown length."""
+    names = sig.names()
+    ns = {}
+    exec(sig.render("f"), ns)
+    out = []
+    for pat in patterns:
+        by_class = {}
+        for _ in range(tries):
+            items = instantiate(pat, names, rng, True)
+            if items is None:
+                continue
+            env = dict(ns)
+            env.update(ordered_env_static(items))
+            try:
+                eval(render_ordered("f", items), env)
+                cls = "binds"
+            except TypeError as e:
+                cls = py_class(str(e))
+            by_class.setdefault(cls, items)
+        if "binds" in by_class:
+            out.append(by_class.pop("binds"))
+        if by_class:
+            out.append(by_class[rng.choice(sorted(by_class))])
+        if any(ch in "SD" for ch in pat) and rng.random() < p_star:
+            for _ in range(4):
+                items = instantiate(pat, names, rng, False)
+                if items is not None and not is_exact(items):
+                    out.append(items)
+                    break
+    return out
+
+
+def check_ordered_batch(ctx, batch) -> None:
+    """batch: list of (sig, items)."""
+    sigs = {}
+    tds = {}
+    lines = ["from typing_extensions import TypedDict"]
+    for sig, items in batch:
+        if sig not in sigs:
+            sigs[sig] = f"f{len(sigs)}"
+            lines.append(sig.render(sigs[sig]))
+        for it in items:
+            if it[0] == "d" and it[1] in ("td", "nt") and td_var(it) not in tds:
+                v = td_var(it)
+                fields = ", ".join(f"{k!r}: int" for k in it[2])
+                tds[v] = v.upper()
+                lines.append(f"{v.upper()} = TypedDict({v.upper()!r}, {{{fields}}}{', total=False' if it[1] == 'nt' else ''})")
+    td_params = "".join(f", {v}: {cls}" for v, cls in tds.items())
+    lines.append(f"def caller(xs: list[int], t: tuple[int, ...], kw: dict[str, int]{td_params}):")
+    call_line = {}
+    srcs = []
+    for i, (sig, items) in enumerate(batch):
+        src = render_ordered(sigs[sig], items)
+        lines.append("    " + src)
+        call_line[i] = len(lines)
+        srcs.append(src)
+    source = "\n".join(lines) + "\n"
+    res = harness.run(source, keep_module=True)
+    try:
+        if res.exception is not None:
+            ctx.violation("harness|exception", f"check raised {res.exception!r}", {"source": source})
+            return
+        by_line = res.by_line()
+        ns = res.module.__dict__
+        for i, (sig, items) in enumerate(batch):
+            ds = [d for d in by_line.get(call_line[i], []) if d.code in BIND_CODES]
+            diagnosed = bool(ds)
+            code = compile(srcs[i], "<call>", "eval")
+            feats = ordered_features(sig, items)
+            shown = f"{sig.render('f')} ; call {render_ordered('f', items)}"
+            wit = {"kind": "ordered", "sig": sig_to_json(sig), "items": items}
+            ns.update(ordered_env_static(items))
+            ctx.count("evaluations")
+            ctx.nontrivial(("ordered", sig.shape(), ordered_shape(items), feats))
+            for fl in feats.split(","):
+                if fl:
+                    ctx.histo("ordered_features", fl)
+            if is_exact(items):
+                try:
+                    eval(code, ns)
+                    raised = None
+                except TypeError as e:
+                    raised = str(e)
+                ctx.count("calls_compared")
+                ctx.count("ordered_exact_cases")
+                ctx.count("ordered_exact_raise" if raised else "ordered_exact_binds")
+                if "kw-after-dstar" in feats:
+                    ctx.count("ordered_kw_after_dstar")
+                if "pos-after-star" in feats or "star-after-kw" in feats:
+                    ctx.count("ordered_star_not_last_positional")
+                ctx.histo("ordered_verdicts", f"py={'raise' if raised else 'ok'},pa={'diag' if diagnosed else 'ok'}")
+                if raised:
+                    ctx.histo("ordered_cpython_error_class", py_class(raised))
+                if diagnosed != bool(raised):
+                    direction = "missed" if raised else "spurious"
+                    kfeats = feats
+                    if raised and py_class(raised) == "dup-keyword":
+                        # only the keyword sources take part in this error: leave the positional side out of the key
+                        kfeats = ",".join(f for f in feats.split(",") if f.startswith(("dstar", "dup:", "kw-after", "two-dstars")))
+                    key = (
+                        f"{direction}|py:{py_class(raised) if raised else 'binds'}|"
+                        f"pa:{pa_class([d.description for d in ds])}|ord:{kfeats}"
+                    )
+                    what = (
+                        f"{shown}: CPython {'raises TypeError: ' + raised if raised else 'binds'}, pyanalyze "
+                        f"{'reports ' + ds[0].short() if ds else 'reports nothing'}"
+                    )
+                    ctx.violation(key, what, wit)
+                continue
+            # star-arguments of unknown length / non-total TypedDicts: judged against every expansion
+            outer_vars, outer_opts, inner_vars, inner_opts = ordered_expansions(sig, items)
+            any_binds = False
+            robust_nonempty_binds = False
+            n_exp = 0
+            err_classes = []
+            for outer in itertools.product(*outer_opts):
+                for v, val in zip(outer_vars, outer):
+                    ns[v] = val
+                all_inner = True
+                for inner in itertools.product(*inner_opts):
+                    for v, val in zip(inner_vars, inner):
+                        ns[v] = val
+                    n_exp += 1
+                    try:
+                        eval(code, ns)
+                        any_binds = True
+                    except TypeError as e:
+                        all_inner = False
+                        c = py_class(str(e))
+                        if c not in err_classes:
+                            err_classes.append(c)
+                if all_inner and all(outer):
+                    robust_nonempty_binds = True
+            ctx.count("star_cases")
+            ctx.count("ordered_star_cases")
+            ctx.count("star_expansions_executed", n_exp)
+            ctx.histo("ordered_star_verdicts", f"any={any_binds},nonempty={robust_nonempty_binds},pa={'diag' if diagnosed else 'ok'}")
+            bad = None
+            if not diagnosed and not any_binds:
+                bad = "accepted-but-no-expansion-binds"
+            elif diagnosed and robust_nonempty_binds:
+                bad = "rejected-but-nonempty-expansion-binds"
+            if bad:
+                if diagnosed:
+                    key = f"star|{bad}|pa:{pa_class([d.description for d in ds])}"
+                elif definite_after_unknown_star_exceed(sig, items):
+                    # one mechanism whatever else the call contains: the explicit positionals / literal-star elements
+                    # alone already exceed what the signature takes, and some of them follow an unknown-length *arg
+                    key = f"star|{bad}|definite-positionals-after-unknown-star-exceed-capacity"
+                else:
+                    key = f"star|{bad}|py:{'+'.join(sorted(err_classes))}|ord:{feats}"
+                what = (f"{shown} with xs: list[int], t: tuple[int, ...], kw: dict[str, int], td_*/nt_*: total/non-total "
+                        f"TypedDicts: {bad}; pyanalyze: {[d.short() for d in ds]}")
+                ctx.violation(key, what, wit)
+        if len(ctx.samples) < 4:
+            sig, items = batch[len(batch) // 2]
+            ctx.sample({"def": sig.render("f"), "ordered_call": render_ordered("f", items)})
+    finally:
+        harness.forget_module(res.module)
+
+
 def shard(ctx) -> None:
     rng = ctx.rng
     exhaustive_n = ctx.pick(3, 4)
@@ -321,6 +721,22 @@ def shard(ctx) -> None:
             star_work.append((sig, case))
     for i in range(0, len(star_work), BATCH):
         check_star_batch(ctx, star_work[i : i + BATCH])
+    # every argument order the grammar allows
+    patterns = ordered_patterns(4)
+    ordered_work = []
+    idx = 0
+    for sig in enumerate_sigs(ctx.pick(4, 5)):
+        idx += 1
+        if not ctx.mine(idx):
+            continue
+        if len(sig.params) <= exhaustive_n:
+            pats = patterns
+        else:
+            pats = rng.sample(patterns, ctx.pick(24, 60))
+        for items in ordered_cases(sig, rng, pats, ctx.pick(6, 10), ctx.pick(0.35, 0.6)):
+            ordered_work.append((sig, items))
+    for i in range(0, len(ordered_work), BATCH):
+        check_ordered_batch(ctx, ordered_work[i : i + BATCH])
 
 
 def _flush(ctx, work) -> None:
@@ -333,7 +749,9 @@ def replay(witness):
 
     ctx = Ctx(ID, "quick", 0, 0, 1)
     sig = sig_from_json(witness["sig"])
-    if witness.get("kind") == "star":
+    if witness.get("kind") == "ordered":
+        check_ordered_batch(ctx, [(sig, witness["items"])])
+    elif witness.get("kind") == "star":
         check_star_batch(ctx, [(sig, (witness["npos"], witness["form"], tuple(witness["used"]), tuple(witness["kws"])))])
     else:
         check_batch(ctx, [(sig, call_from_json(witness["call"]))])
